@@ -133,6 +133,37 @@ def run_emptytree(c):
     return {"ok": {"dict": out}}
 
 
+def run_treeapi(c):
+    """the public AabbTree query API on two small trees: RAW return values (dtype kind and shape are part of the
+    serialisation: callers index arrays with them)"""
+    from distance3d import aabb_tree as AT
+
+    def tree(boxes, mode):
+        t = AT.AabbTree()
+        if boxes:
+            t.insert_aabbs(np.array(boxes, dtype=float).reshape(-1, 3, 2), list(range(len(boxes))), pre_insertion_methode=mode)
+        return t
+    out = {}
+    t1, t2 = tree(c["boxes1"], c.get("mode", "none")), tree(c["boxes2"], c.get("mode", "none"))
+    for name, f in (("tree_tree", lambda: t1.overlaps_aabb_tree(t2)), ("tree_tree_rev", lambda: t2.overlaps_aabb_tree(t1)),
+                    ("box", lambda: t1.overlaps_aabb(np.array(c["q"], dtype=float).reshape(3, 2))),
+                    ("root", lambda: t1.get_root_aabb())):
+        try:
+            r = f()
+            if name.startswith("tree_tree"):
+                flag, u1, u2, pairs = r
+                r = [flag, np.sort(np.asarray(u1)), np.sort(np.asarray(u2)), sorted([int(a), int(b)] for a, b in pairs)]
+                out[name + "_index_dtypes"] = [np.asarray(u1).dtype.kind, np.asarray(u2).dtype.kind]
+                # what a caller does with the result: index an array with it
+                np.zeros((max(1, len(t1.aabbs)), 3))[np.asarray(u1)]
+            elif name == "box":
+                r = [r[0], sorted(int(i) for i in r[1])]
+            out[name] = ser(r)
+        except BaseException as e:  # noqa
+            out[name] = {"exc": type(e).__name__}
+    return {"ok": {"dict": out}}
+
+
 def strip(x):
     """drop volatile keys of foreign workers' results"""
     if isinstance(x, dict):
@@ -153,7 +184,7 @@ def run_worker(c):
     return {"ok": {"json": strip(mod.run_case(c["case"]))}}
 
 
-KINDS = dict(call=run_call, collider=run_collider, mesh=run_mesh, emptytree=run_emptytree, worker=run_worker)
+KINDS = dict(call=run_call, collider=run_collider, mesh=run_mesh, emptytree=run_emptytree, worker=run_worker, treeapi=run_treeapi)
 
 
 def run_aabbtree(c):
